@@ -311,6 +311,10 @@ def gen_case(rng, kind=None):
         if rng.random() < 0.15:
             kids.insert(rng.randint(0, len(kids)), ["sub2", "Strategy"])
         p["kids"] = kids
+        # a child given as a string: it becomes a node only when it is first traded - here AFTER the same algo instance has
+        # already been called once on the target
+        rest = [c for c in cols if c not in [k_[0] for k_ in kids]]
+        p["late"] = rng.choice(rest) if (rest and rng.random() < 0.5) else None
         p["fi_parent"] = any(t == "FixedIncomeStrategy" for _, t in kids) or rng.random() < 0.2
         r = rng.random()
         p["incl"] = None if r < 0.25 else [t for t in TYPES if rng.random() < 0.25]
@@ -491,6 +495,8 @@ def execute(bt, case):
             return {"skip": "children:" + type(e).__name__}
         if any(t.startswith("CouponPaying") for _, t in p["kids"]):
             kw["coupons"] = pd.DataFrame(0.0, index=data.index, columns=[n for n, t in p["kids"] if t.startswith("CouponPaying")])
+        if p.get("late"):
+            kids = kids + [p["late"]]
         s = (bt.core.FixedIncomeStrategy if p["fi_parent"] else bt.Strategy)("s", [], kids)
     else:
         s = bt.Strategy("s", [], None if case["children"] is None else list(case["children"]))
@@ -506,6 +512,16 @@ def execute(bt, case):
     uni = s.universe
     res["ucols"] = [str(c) for c in uni.columns]
     res["universe_ok"] = bool(len(uni) == case["now"] + 1)
+    if case["kind"] == "types" and p.get("late"):
+        try:
+            s.temp = {}
+            algo(s)                       # an earlier call of the same instance, before the late child exists
+            s.adjust(1000.0)
+            s.transact(1.0, p["late"])    # ... now it does
+            s.update(s.now)
+            res["late_created"] = p["late"] in s.children
+        except Exception as e:
+            return {"skip": "late-child:" + type(e).__name__}
     if case["kind"] == "types":
         res["kids"] = [[n, type(c).__name__] for n, c in s.children.items()]
         res["utable"] = [[cell(x) for x in row] for row in s._universe.values.tolist()] if hasattr(s, "_universe") else None
